@@ -189,6 +189,22 @@ class Sat:
         return f"Sat({self.v},{self.cap})"
 
 
+class Trace:
+    """a start value that remembers every operand added to it, in order: summing is one addition per item"""
+
+    def __init__(self, log=()):
+        self.log = tuple(log)
+
+    def __add__(self, other):
+        return Trace(self.log + (other,))
+
+    def __radd__(self, other):
+        return Trace((other,) + self.log)
+
+    def __repr__(self):
+        return f"Trace{self.log}"
+
+
 @st.composite
 def range_cases(draw):
     start = draw(st.integers(-4, 6))
@@ -198,7 +214,7 @@ def range_cases(draw):
     tool = draw(st.sampled_from(["sum", "sum", "sum", "sum", "list", "tuple", "set", "min", "max", "sorted", "any", "all",
                                  "nlargest", "nsmallest", "reduce-sub"]))
     return {"tool": tool, "r": [start, stop, step], "flavour": draw(st.sampled_from(["range", "range", "async"])),
-            "start": draw(st.sampled_from([None, ["i", 3], ["sat", 4, 5], ["sat", 0, 3], ["sat", 2, 3], ["sat", 4, 5],
+            "start": draw(st.sampled_from([None, ["i", 3], ["trace"], ["trace"], ["sat", 4, 5], ["sat", 0, 3], ["sat", 2, 3], ["sat", 4, 5],
                                            ["f", 0.5], ["F", 1, 3]])),
             "n": draw(st.integers(0, 4))}
 
@@ -212,7 +228,7 @@ def check_range(case):
     r = range(*case["r"])
     sv = case["start"]
     start = None if sv is None else (sv[1] if sv[0] in ("i", "f") else Fraction(sv[1], sv[2]) if sv[0] == "F"
-                                     else Sat(sv[1], sv[2]))
+                                     else Trace() if sv[0] == "trace" else Sat(sv[1], sv[2]))
     tool = case["tool"]
 
     async def agen():
